@@ -104,6 +104,9 @@ macro_rules! impl_multi_subscription {
       pub fn append(&mut self, v: $box_ty) {
         if let Some(vec) = self.0.rc_deref_mut().as_mut() {
           vec.push(Some(v));
+        } else {
+          // the composite is already unsubscribed, tear the late part down
+          v.unsubscribe();
         }
       }
       pub fn retain(&mut self) {
